@@ -113,6 +113,22 @@ class Roles:
             return f"P:{e.id}"
         if d <= 0:
             return f"?{e.id}"
+        if len(bs) > 1:
+            # loop state: a name re-assigned inside a (while / for) loop that
+            # encloses this use is described by its value on loop entry -
+            # `state(<initial>)` - instead of an ever-growing phi of what the
+            # iterations assign
+            from .rules.util import enclosing
+            loops = [l for l in enclosing(self.fi.node, loc,
+                                          (ast.While, ast.For))]
+            for lp in loops:
+                inside = [b for b in bs if any(x is b.stmt
+                                               for x in ast.walk(lp))]
+                outside = [b for b in bs if b not in inside]
+                if inside and outside:
+                    init = sorted({self._binding(b, e.id, env, d - 1)
+                                   for b in outside})
+                    return "state(" + "|".join(init) + ")"
         outs = []
         for b in bs:
             key = (id(b), id(loc))
